@@ -52,4 +52,3 @@ func VerifC02_PrefixLen() {
 	}
 	symx.Reach("end")
 }
-
